@@ -5,23 +5,23 @@ From NV Require Spec.C07 Proofs.Server_proofs.
 Import ListNotations.
 
 (* at most one request-handler or upload-handler invocation, whatever the schedule *)
-Theorem C07_at_most_once : forall ip6 handler mw up ip fp evs,
-  Spec.C07.at_most_once (run ip6 handler mw up ip fp init evs) = true.
+Theorem C07_at_most_once : forall ip6 handler mw up ucf ip fp evs,
+  Spec.C07.at_most_once (run ip6 handler mw up ucf ip fp init evs) = true.
 Proof. exact Server_proofs.at_most_once. Qed.
 Print Assumptions C07_at_most_once.
 
 (* once the request is complete, further reads change nothing but the buffer *)
-Theorem C07_trailing_ignored : forall ip6 handler mw up ip fp s d,
+Theorem C07_trailing_ignored : forall ip6 handler mw up ucf ip fp s d,
   line_rcvd s = true -> await_titan s = false ->
-  data_received ip6 handler mw up ip fp s d = (set_buf s (buf s ++ d) true, []).
+  data_received ip6 handler mw up ucf ip fp s d = (set_buf s (buf s ++ d) true, []).
 Proof. exact Server_proofs.trailing_ignored. Qed.
 Print Assumptions C07_trailing_ignored.
 
 (* segmentation independence: any way of cutting the client's bytes into reads and slices
    produces the same actions as delivering them in one piece *)
-Theorem C07_refines : forall ip6 handler mw up ip fp (reads : list (list str)),
-  flat (run ip6 handler mw up ip fp init (map ERead reads)) =
-  flat (run ip6 handler mw up ip fp init [ERead [concat (concat reads)]]).
+Theorem C07_refines : forall ip6 handler mw up ucf ip fp (reads : list (list str)),
+  flat (run ip6 handler mw up ucf ip fp init (map ERead reads)) =
+  flat (run ip6 handler mw up ucf ip fp init [ERead [concat (concat reads)]]).
 Proof. exact Server_proofs.refines. Qed.
 Print Assumptions C07_refines.
 
@@ -33,24 +33,24 @@ From NV Require Import Prelude.Utf8 Equiv.ServerGlue Gen.ServerGen Equiv.ServerL
 From NV Require Equiv.EquivServerLoop Proofs.Server_on_code.
 Theorem C07_at_most_once_on_code : forall reenc : str -> str,
   EquivServerLoop.reenc_ok reenc ->
-  forall ip6 handler mw up ip fp evs,
-  Spec.C07.at_most_once (gen_run reenc ip6 handler mw up ip fp init evs) = true.
+  forall ip6 handler mw up ucf ip fp evs,
+  Spec.C07.at_most_once (gen_run reenc ip6 handler mw up ucf ip fp init evs) = true.
 Proof. exact Server_on_code.at_most_once_on_code. Qed.
 Print Assumptions C07_at_most_once_on_code.
 
 Theorem C07_trailing_ignored_on_code : forall reenc : str -> str,
   EquivServerLoop.reenc_ok reenc ->
-  forall ip6 handler mw up ip fp s d,
+  forall ip6 handler mw up ucf ip fp s d,
   line_rcvd s = true -> await_titan s = false ->
-  cl_data_received reenc ip6 handler mw up ip fp s d = (set_buf s (buf s ++ d) true, []).
+  cl_data_received reenc ip6 handler mw up (upcall_of ucf) ip fp s d = (set_buf s (buf s ++ d) true, []).
 Proof. exact Server_on_code.trailing_ignored_on_code. Qed.
 Print Assumptions C07_trailing_ignored_on_code.
 
 Theorem C07_refines_on_code : forall reenc : str -> str,
   EquivServerLoop.reenc_ok reenc ->
-  forall ip6 handler mw up ip fp (reads : list (list str)),
-  flat (gen_run reenc ip6 handler mw up ip fp init (map ERead reads)) =
-  flat (gen_run reenc ip6 handler mw up ip fp init [ERead [concat (concat reads)]]).
+  forall ip6 handler mw up ucf ip fp (reads : list (list str)),
+  flat (gen_run reenc ip6 handler mw up ucf ip fp init (map ERead reads)) =
+  flat (gen_run reenc ip6 handler mw up ucf ip fp init [ERead [concat (concat reads)]]).
 Proof. exact Server_on_code.refines_on_code. Qed.
 Print Assumptions C07_refines_on_code.
 
